@@ -380,7 +380,7 @@ func genSamAtScale(r *RNG, maxIns int) samCase {
 }
 
 func genSam(r *RNG, disjoint bool, maxIns int) samCase {
-	if genSamScale >= 0 && !genSamAtBufferBoundary && !genSamRefNamedQuery && (genSamScale == 1 || r.Chance(1, 20)) {
+	if genSamScale >= 0 && !genSamAtBufferBoundary && !genSamRefNamedQuery && (genSamScale == 1 || atScale(r, 20)) {
 		return genSamAtScale(r, maxIns)
 	}
 	L := r.Range(10, 120)
